@@ -79,7 +79,7 @@ pub fn gen(rng: &mut ChaCha20Rng, n: usize, thorough: bool) -> Vec<Case> {
         }
     }
     // targeted: blocks whose transaction count sits at a varint threshold (the big ones only in the thorough tier: ~1.4 MB of hex each)
-    let counts: &[usize] = if thorough { &[0xfc, 0xfd, 0xfffe, 0xffff, 0x10000] } else { &[0xfc, 0xfd] };
+    let counts: &[usize] = if thorough { &[0xfc, 0xfd, 0xfffe, 0xffff, 0x10000] } else { &[0xfc, 0xfd, 0xffff] };
     for &c in counts {
         let mut tags = vec![format!("src:targeted-block-txcount{:x}", c)];
         let empty = Transaction { version: 2, lock_time: elements::LockTime::ZERO, input: vec![], output: vec![] };
